@@ -5,6 +5,7 @@ import (
 	"fmt"
 	"time"
 
+	ipfslog "berty.tech/go-ipfs-log"
 	"berty.tech/go-ipfs-log/identityprovider"
 	orbitdb "berty.tech/go-orbit-db"
 	"berty.tech/go-orbit-db/address"
@@ -157,5 +158,131 @@ func (r *coreRun) loadLimits() {
 	}
 }
 
-var _ = basestore.SaveSnapshot
-var _ = sim.Install
+
+// ---------------------------------------------------------------------------
+// C13: snapshots
+
+type snapState struct {
+	listing []int
+	heads   []int
+	view    map[string]string
+}
+
+func (r *coreRun) stateOf(ref *sim.StoreRef, c *cluster) snapState {
+	st := snapState{listing: []int{}, heads: []int{}}
+	for _, e := range ref.S.OpLog().Values().Slice() {
+		id, ok := c.ids[e.GetHash().String()]
+		if !ok {
+			id = -1
+		}
+		st.listing = append(st.listing, id)
+	}
+	for _, e := range ref.S.OpLog().Heads().Slice() {
+		st.heads = append(st.heads, c.ids[e.GetHash().String()])
+	}
+	st.heads = sortedInts(st.heads)
+	return st
+}
+
+// snapshotOf saves a snapshot of the replica and loads it into a fresh store
+// object running on a copy of the replica's durable state.
+func (r *coreRun) snapshotOf(name string, what string, allowExtra []int) {
+	ctx, cancel := context.WithTimeout(context.Background(), 20*time.Second)
+	defer cancel()
+	ref := r.c.refs[name]
+	saved := r.stateOf(ref, r.c)
+	var savedView map[string]string
+	if r.in.Type != "log" {
+		savedView, _ = r.view(name)
+	}
+	r.res.Comparisons++
+	r.res.Stats["snapshots"]++
+	mark("%s: %s: SaveSnapshot on replica %s (%d entries)", r.bid, what, name, len(saved.listing))
+	_, err := basestore.SaveSnapshot(ctx, ref.S)
+	if err != nil {
+		r.res.Stats["snapshot_save_errors"]++
+		return // "or saving fails"
+	}
+	p := r.c.nodes[name].P
+	q := p.CloneDurable(p.EffectCount())
+	node, err := q.Start("")
+	if err != nil {
+		r.res.Inconclusive = append(r.res.Inconclusive, r.bid+": snapshot: "+err.Error())
+		return
+	}
+	defer node.Close()
+	ref2, err := node.Open(r.c.addr, realType(r.in.Type), &orbitdb.CreateDBOptions{Timeout: 3 * time.Second})
+	if err != nil {
+		r.violate("snapshot-silent", what+": database cannot be reopened after saving a snapshot: "+err.Error(), nil, nil)
+		return
+	}
+	mark("%s: %s: LoadFromSnapshot of replica %s (%d entries)", r.bid, what, name, len(saved.listing))
+	if err := ref2.S.LoadFromSnapshot(ctx); err != nil {
+		r.violate("snapshot-silent", fmt.Sprintf("%s: SaveSnapshot of replica %s (%d entries) succeeded but the snapshot cannot be loaded: %v", what, name, len(saved.listing), err), nil, nil)
+		return
+	}
+	if err := sim.Settle(5*time.Second, node); err != nil {
+		r.res.note("%s: %s: settle after LoadFromSnapshot: %v", r.bid, what, err)
+	}
+	got := r.stateOf(ref2, r.c)
+	// entries queued for replication at save time may legitimately have arrived as well
+	strip := func(l []int) []int {
+		out := []int{}
+		for _, id := range l {
+			if !contains(allowExtra, id) {
+				out = append(out, id)
+			}
+		}
+		return out
+	}
+	if !eqInts(strip(got.listing), saved.listing) {
+		r.violate("snapshot-mismatch", fmt.Sprintf("%s: log loaded from the snapshot of replica %s differs from the saved log", what, name), saved.listing, got.listing)
+		return
+	}
+	if len(allowExtra) == 0 && !eqInts(got.heads, saved.heads) {
+		r.violate("snapshot-mismatch", what+": heads after loading the snapshot differ", saved.heads, got.heads)
+	}
+	if r.in.Type != "log" && len(allowExtra) == 0 {
+		// read the view of the fresh store through the same API
+		old := r.c.refs[name]
+		r.c.refs[name] = ref2
+		v, err := r.view(name)
+		r.c.refs[name] = old
+		if err != nil || !eqStrMap(v, savedView) {
+			r.violate("snapshot-mismatch", what+": view after loading the snapshot differs", savedView, v)
+		}
+	}
+}
+
+func (r *coreRun) snapshots() {
+	r.step = -2
+	for _, name := range r.c.names {
+		r.snapshotOf(name, "at rest", nil)
+	}
+	// with replication in progress: a head announced to the first replica whose fetch has not completed
+	if len(r.c.names) < 2 {
+		return
+	}
+	a, w := r.c.names[0], r.c.names[1]
+	e, err := r.doWrite(w, map[string]interface{}{"kind": map[string]string{"log": "ADD", "kv": "PUT", "doc": "PUT"}[r.in.Type], "k": r.in.Keys[0], "v": r.in.Vals[0], "docs": []interface{}{}})
+	if err != nil {
+		return
+	}
+	id := len(r.c.entries) + 1
+	r.c.record(id, copyEntry(e))
+	if err := r.c.settle(); err != nil {
+		r.res.note("%s: snapshots: settle after extra write: %v", r.bid, err)
+	}
+	h := sim.TheHub
+	store := r.c.refs[a].S
+	h.ParkAt("repl.fetch", func(args []interface{}) bool { return sim.K(args[1]) == sim.K(store) })
+	if err := store.Sync(context.Background(), []ipfslog.Entry{copyEntry(e)}); err == nil {
+		if parkedFor("repl.fetch", nil, 3*time.Second) != nil {
+			r.snapshotOf(a, "replication in progress", []int{id})
+		}
+	}
+	h.ReleaseAll()
+	if err := r.c.settle(); err != nil {
+		r.res.note("%s: snapshots: settle after release: %v", r.bid, err)
+	}
+}
